@@ -190,6 +190,70 @@ fn big_families(thorough: bool) -> Vec<(String, ldpc_toolbox::sparse::SparseMatr
     out
 }
 
+/// Few rows, very many columns: widths around 256, 4096, 8192 (65536 thorough), i.e. around the
+/// block sizes a cache-blocked or word-packed elimination would use.
+fn wide_families(thorough: bool) -> Vec<(String, ldpc_toolbox::sparse::SparseMatrix)> {
+    use ldpc_toolbox::sparse::SparseMatrix;
+    let mut out = Vec::new();
+    let mut widths = vec![63usize, 64, 65, 255, 256, 257, 4095, 4096, 4097, 5000, 8193];
+    if thorough {
+        widths.extend([16385, 65535, 65537]);
+    }
+    for &n in &widths {
+        for r in [2usize, 3, 8] {
+            // two equal rows {0, n-1}: rank r-1
+            let mut d = SparseMatrix::new(r, n);
+            for i in 0..r {
+                if i < 2 {
+                    d.insert(i, 0);
+                    d.insert(i, n - 1);
+                } else {
+                    d.insert(i, n / 2 + i);
+                    d.insert(i, i);
+                }
+            }
+            out.push((format!("wide-duplicate-rows:{}x{}", r, n), d));
+            // pivots at the left, further ones far to the right
+            let mut f = SparseMatrix::new(r, n);
+            for i in 0..r {
+                f.insert(i, i);
+                f.insert(i, n - 1 - i);
+                f.insert(i, (i * 2_654_435_761 + 12_345) % n);
+                if i > 0 {
+                    f.insert(i, 0);
+                    f.insert(i, n - 1);
+                }
+            }
+            out.push((format!("wide-far:{}x{}", r, n), f));
+            // all ones in the last r+2 columns only
+            let mut g = SparseMatrix::new(r, n);
+            for i in 0..r {
+                for j in 0..r + 2 {
+                    if (i + j) % 3 != 0 || i == j {
+                        g.insert(i, n - 1 - j);
+                    }
+                }
+            }
+            out.push((format!("wide-right:{}x{}", r, n), g));
+            // pseudo-random dense
+            let mut x = 0x2545_F491_4F6C_DD1Du64 ^ ((n * 31 + r) as u64);
+            let mut m = SparseMatrix::new(r, n);
+            for i in 0..r {
+                for j in 0..n {
+                    x ^= x << 13;
+                    x ^= x >> 7;
+                    x ^= x << 17;
+                    if x & 3 == 1 {
+                        m.insert(i, j);
+                    }
+                }
+            }
+            out.push((format!("wide-dense:{}x{}", r, n), m));
+        }
+    }
+    out
+}
+
 pub fn big_families_pub(thorough: bool) -> Vec<(String, ldpc_toolbox::sparse::SparseMatrix)> {
     big_families(thorough)
 }
@@ -197,7 +261,7 @@ pub fn big_families_pub(thorough: bool) -> Vec<(String, ldpc_toolbox::sparse::Sp
 fn replay_element(v: &Value, acc: &mut Acc) {
     if v["kind"] == "big" {
         let name = v["name"].as_str().unwrap_or("");
-        for (n, h) in big_families(true) {
+        for (n, h) in big_families(true).into_iter().chain(wide_families(true)) {
             if n == name {
                 check_big(&n, &h, acc);
             }
@@ -227,7 +291,8 @@ pub fn run(run: &Run) -> i32 {
             let a = par_fold(1u64 << (r * n), |mask, a| check_matrix(r, n, mask, a));
             acc = acc.merge(a);
         }
-        let fam = big_families(run.thorough());
+        let mut fam = big_families(run.thorough());
+        fam.extend(wide_families(run.thorough()));
         let a = par_items(&fam, |(n, h), a| check_big(n, h, a));
         acc = acc.merge(a);
     }
@@ -235,7 +300,7 @@ pub fn run(run: &Run) -> i32 {
         run,
         acc,
         Coverage {
-            rule: "every binary matrix of every listed shape r x n (all 2^(r*n) masks, duplicate-free); reference rank / invertibility by independent bit-set elimination; plus deterministic families with many rows ([J-I | I], [I | J-I], their rank-deficient variants and pseudo-random dense r x 2r matrices for r up to 40 (64)). Non-trivial = full-rank input (conversion really performed); rank-deficient inputs are counted separately.".into(),
+            rule: "every binary matrix of every listed shape r x n (all 2^(r*n) masks, duplicate-free); reference rank / invertibility by independent bit-set elimination; plus deterministic families with many rows ([J-I | I], [I | J-I], their rank-deficient variants and pseudo-random dense r x 2r matrices for r up to 40 (64)), and wide families (2, 3, 8 rows; 63..8193 columns around 64, 256, 4096, 8192, thorough to 65537: duplicate rows, far-apart ones, ones only at the right end, pseudo-random dense). Non-trivial = full-rank input (conversion really performed); rank-deficient inputs are counted separately.".into(),
             exhaustive: true,
             extra: serde_json::Map::new(),
             graph: None,
